@@ -59,6 +59,7 @@ static void mon_stop_effects(int s) {
     m->st = S_STOPPED; mt_del_all(s);
 }
 
+static int upvh_was(int s, int q, const void *p) { for (int i = 0; i < 6; i++) if (UPVH_OLD[s][q][i] == p) return 1; return 0; }
 static int owed_excused(int s, int k);
 static long cb_total;                          /* callbacks entered so far in this execution (a dispatch that ran one has processed a batch) */
 static void cb_enter(int s, int kind) {
@@ -204,7 +205,7 @@ static void deliver_ps(int s, const m_evt_t *e, int idx_in_inv, int *is_trigger_
     int prio = PR_NORM, found = pe.pats == 0;
     if (pe.pats == 0) { if (e->userdata != NULL) vfail("EV.owner", "EV.owner|ps-userdata", "%s: direct message delivered with a non-NULL user pointer", m->name); }
     else {
-        for (int q = 0; q < NPAT; q++) if (pe.pats & (1u << q)) for (int v = 0; v < 2; v++) if (UPVH[s][q] && m->sub[q].present && m->sub[q].af ? (v == 0 && e->userdata == UPVH[s][q]) : e->userdata == &UPV[s][q][v]) {
+        for (int q = 0; q < NPAT; q++) if (pe.pats & (1u << q)) for (int v = 0; v < 2; v++) if (e->userdata == &UPV[s][q][v] || (v == 0 && e->userdata && (e->userdata == UPVH[s][q] || upvh_was(s, q, e->userdata)))) {      /* the user pointer of the subscription object the message was sent under: the present one or a replaced one */
             found = 1; prio = pe.prio >= 0 ? pe.prio : (m->sub[q].present ? m->sub[q].prio : PR_NORM);
             if (m->sub[q].present && m->sub[q].oneshot && (unsigned char)m->sub[q].gen == pe.gens[q]) { m->sub[q].present = 0;      /* only the subscription the message was sent under is used up */ TRACE("one-shot subscription %s of %s consumed", PAT[q], m->name); }
         }
